@@ -69,13 +69,17 @@ CLAIMED["C07"] = dict(
     text="Theorems in Props/C07.lean for every reachable state of the coroutine model under every schedule and every environment "
          "behaviour: every transport the client holds open is its current reader/writer (C07_held_open_is_current), so it never "
          "holds two (C07_at_most_one_connection, and C07_trace_single for the Spec's own trace monitor), every other transport ever "
-         "opened is closing or closed (C07_abandoned_are_closed), at most one task is inside open_connection. The healing clause "
-         "(connected, receiving and transmitting again once the network behaves) is decided on recorded fault scripts of the real "
-         "socket by the Spec monitor `healed` (not a theorem: it is a liveness statement about the environment) - partial. Every "
-         "recorded run is replayed block by block against the model.",
+         "opened is closing or closed (C07_abandoned_are_closed), at most one task is inside open_connection. Props/C07Heal.lean - the client can "
+         "never be wedged: from EVERY reachable open state (histories respecting the close() discipline and in which a reader is told EOF only on a "
+         "transport not lost with an exception - both hypotheses are necessary, the two wedges without them are proved) there EXISTS a run of benign "
+         "labels only (pending connection_lost callbacks, wake-ups of tasks blocked on dead transports, the environment stops misbehaving, a successful "
+         "connect, at most RETRY_DELAY of waiting) that ends connected on a healthy transport with a reader waiting on it, nothing else unfinished and "
+         "the queue drained, every queued entry accounted for (C07_never_wedges, C07_never_wedges_fate, C07_progress_possible, C07_reconnect_pending). "
+         "That every actual run heals within bounded time (liveness under asyncio's fair scheduling) is decided on recorded fault scripts of the real "
+         "socket by the Spec monitor `healed`. Every recorded run is replayed block by block against the model.",
     design_ref="DESIGN.md section 7, C07",
     technique="Lean 4 proof (inductive invariant over all interleavings) + trace validation + Spec monitors on recorded fault scripts",
-    note=SOCK_NOTE + "Healing/progress is checked on recorded runs only.")
+    note=SOCK_NOTE + "never_wedges is a possibility (AG EF) theorem: no reachable state is a dead end; that the scheduler actually takes the steps is checked on recorded runs.")
 CLAIMED["C15"] = dict(
     text="Theorems in Props/C15.lean: in every state reached (under every schedule) after close() has returned and before a later "
          "open, the socket is closed, disconnected, not connecting, holds no live transport and every background task has finished "
@@ -262,6 +266,37 @@ CLAIMED["C19"] = dict(
          "(AirTouch 5 always offers TURBO), zone set-points outside 10..35 degC (accepted by both APIs, unencodable on AirTouch 5), a lone AirTouch 4 AC without group bitmap owning "
          "every named group, and the order of `zones` within an AirTouch 4 AC (CPython set order of the bitmap). Not covered by the theorems: quick-timer calls, check_for_updates, "
          "shutdown / reconnect / time, subscriptions (covered per generation by C11, C12, C14, C15).")
+
+CLAIMED["C09"] = dict(
+    text="Theorems in Props/C09At4.lean and Props/C09At5.lean over the API models: init() opens the socket and waits at most the generated timeout (40 ticks = 5 s); on "
+         "the connected notification the first request is sent; a message that is not the awaited answer changes nothing and sends nothing (not_answer_ignored, "
+         "no_request_without_answer), the awaited answer sends exactly the next request (answer_advances, one_request_per_answer), so the requests form the fixed "
+         "sequence version, names, abilities, AC status, timer status, zone / group status (requests_in_order / request_order) under ARBITRARY interleaved frames; six "
+         "answers with any noise in between complete the handshake: CONNECTED, initialised, heartbeat started, nothing raised (handshake_completes); the ACs and zones "
+         "exposed are exactly those described, each zone on the right AC - AT4 bitmap, single-AC fallback and start/count ranges, AT5 ranges and the zero-zone echo "
+         "addressed to the client (exposed_zones, exposed_air_conditioners, entities_as_described, zero_zones_echo); without the last answer init() returns False "
+         "exactly at the deadline, initialised stays false, nothing raises (init_times_out / silence). Direct judgement of the REAL objects: installations 1..4 ACs x "
+         "0..16 zones in every zone-to-AC description, ten kinds of interleaved frames at every position, silence after 0..5 answers, connect delays below / above "
+         "5 s: request order and placement, result and its instant, and the exposed entities against the vendor reading of the names and ability payloads.",
+    design_ref="DESIGN.md section 7, C09 and section 12.4",
+    technique="Lean 4 proof (handshake state machine of the API models: order, completion under noise, exposure, timeout) + op-for-op differential + independent judgement of the real objects",
+    note=API_NOTE + "Consistent consoles only: an AirTouch 4 console with zero groups (its empty names answer is indistinguishable from the request) and a console whose ability record names an "
+         "unnamed zone make init() return False after 5 s (KeyError inside the handler, swallowed by the socket) - recorded, outside the quantifier. Byte segmentation of the console's answers is "
+         "covered by C13 at the socket and by the full-stack scenarios (segment / interleave options of harness/fullstack.py).")
+CLAIMED["C14"] = dict(
+    text="Theorems in Props/C14At4.lean and Props/C14At5.lean over the API models: a connected notification in the initialised state sends exactly the AC status request and "
+         "the zone / group status request with the CONNECTED policy (reconnect_refresh), a disconnect sends nothing; answers that change nothing notify nobody "
+         "(unchanged_*_silent / unchanged_refresh_silent) and changed ones are stored (C10 theorems); AirTouch 4: while connected and no group status has arrived for "
+         "2400 ticks a group status request is sent, again every 2400 ticks for as long as the silence lasts (poll_requests: closed-form count over any `adv n`; "
+         "poll_at_deadline), a received group status re-arms the timer (group_status_rearms), nothing is sent while disconnected; AirTouch 5 never polls "
+         "(no_poll_loop: every output of any `adv` is an init result, a heartbeat request or a heartbeat reset). Direct judgement of the REAL objects: histories with "
+         "up to three outages of 0..9000 ticks at any moment, console changes while disconnected, refresh answered in either order / partly / not at all with noise, "
+         "silences up to 12100 ticks: both requests in the reconnecting op, views equal to a client freshly initialised against the console's present state, no "
+         "notification for unchanged data, AT4 polls in exactly the ops containing t + 2400k.",
+    design_ref="DESIGN.md section 7, C14 and section 12.4",
+    technique="Lean 4 proof (refresh on reconnection, silence-poll timing in closed form, silence on unchanged data over the API models) + op-for-op differential + independent judgement of the real objects",
+    note=API_NOTE + "The closed-form poll count assumes no orphaned poll task (O12: only after repeated init() without shutdown()). After an outage the phase of the AT4 poll is not prescribed by the "
+         "statement: judged as 'no more than 300 s of connected silence without a request, no poll within 300 s of a received frame'. The reconnection itself is the socket's job (C07).")
 
 NOT_YET = {
 }
